@@ -741,12 +741,17 @@ theorem ep_close_releases_once (s : St) (e : Nat) :
 example : ((run init [.goc 0 false 1000 (some 0) none 0 .ok, .track 0 1, .close 0]).trk 0).kdel = [2, 3] := by
   decide
 
-/-- **Concurrent first packets cause a single dial.**  In every interleaving of any number of
-`GetOrCreate` calls for one key (fast path under the read lock, creation mutex, re-check, dial,
-publish — each a critical section of the real code; fault-free window) at most one transport dial
-happens, and once the endpoint is published exactly one has happened. -/
+/-- **Concurrent packets of one source cause one dial per endpoint generation.**  In every
+interleaving of any number of `GetOrCreate` calls for one key (fast path under the read lock,
+creation mutex, re-check, dial, publish — each a critical section of the real code) with dials that
+may fail and with the published endpoint being retired at arbitrary moments, the number of transport
+dials is: one per retired endpoint, one per failed dial, one for the live endpoint if there is one,
+and one for the creator that has dialled and not yet published.  In particular no dial ever happens
+for a key whose endpoint is live, and in a fault-free window (nothing retired, no dial failed) at
+most one dial happens however many first packets race. -/
 theorem ep_single_dial (s : EPC.St) (hr : EPC.Reachable s) :
-    s.dials ≤ 1 ∧ (s.pool = true → s.dials = 1) := by
+    s.dials ≤ s.retires + s.fails + 1 ∧ (s.pool = true → s.dials = s.retires + s.fails + 1) ∧
+    (s.retires = 0 → s.fails = 0 → s.dials ≤ 1) := by
   have hI := EPC.inv_reachable hr
   have hc := hI.count
   have hpd : EPC.pendingDial s ≤ 1 := by
@@ -760,10 +765,20 @@ theorem ep_single_dial (s : EPC.St) (hr : EPC.Reachable s) :
       | none => rfl
       | some t => simp [hI.excl hp t hl]
     rw [h0, hp] at hc
-    exact ⟨by simp at hc; omega, fun _ => by simpa using hc⟩
+    simp only [if_true] at hc
+    exact ⟨by omega, fun _ => by omega, fun _ _ => by omega⟩
   · have hp' : s.pool = false := by simpa using hp
     rw [hp'] at hc
-    exact ⟨by simp at hc; omega, fun h => by rw [hp'] at h; cases h⟩
+    simp only [Bool.false_eq_true, if_false] at hc
+    refine ⟨by omega, ?_, fun _ _ => by omega⟩
+    intro h; rw [hp'] at h; cases h
+
+/-- a dial fails, the next caller dials again; the endpoint is retired, the next caller dials again -/
+example : ∃ s, EPC.Reachable s ∧ s.dials = 3 ∧ s.fails = 1 ∧ s.retires = 1 ∧ s.pool = true :=
+  ⟨_, EPC.reachable_of_run [.spawn, .step 0, .step 0, .step 0, .failDial 0,
+      .spawn, .step 1, .step 1, .step 1, .step 1, .step 1, .retire,
+      .spawn, .step 2, .step 2, .step 2, .step 2, .step 2] EPC.init _ EPC.Reachable.init rfl,
+   by decide, by decide, by decide, by decide⟩
 
 /-- three concurrent callers, the slowest interleaving: all miss the fast path before anyone dials -/
 def exFirstPackets : List EPC.Act :=
